@@ -330,10 +330,9 @@ ParallelIndependent(tree, pols) ==
 (* kind-specific {enter, leave} pair; kk: kinds with a kind-specific       *)
 (* function (called on enter) and a leave function; ge / gl: a generic     *)
 (* enter / leave function; ek / lk: kinds listed in the enter / leave kind *)
-(* map.  A kind-specific entry beats the generic functions.  Combinations  *)
-(* whose precedence the property does not fix (generic function together   *)
-(* with a kind map for the same phase, half-filled kind-specific entries)  *)
-(* are not used.                                                           *)
+(* map.  A kind-specific entry beats the generic functions, and a generic  *)
+(* function beats the kind map of its phase (the precedence documented at  *)
+(* GetVisitFn).  Half-filled kind-specific entries are not used.           *)
 Slot(form, kind, ph) ==
   IF kind \in form.kf THEN (IF ph = "enter" THEN "kf.enter" ELSE "kf.leave")
   ELSE IF kind \in form.kk THEN (IF ph = "enter" THEN "kk.kind" ELSE "kk.leave")
